@@ -102,7 +102,8 @@ dot({s1}) = -{inter} + gate.{s2} * {p2} - {s1} * 0.5
 {inter} = {mmt_expr(e_inter).replace(s2, 'gate.' + s2).replace(s3, 'gate.' + s3).replace(p1, 'gate.' + p1)}
 {p2} = 2.5
     in [mS/uF]
-{probe_def}dot(w_dup) = -w_dup + {s1} * 0.1{probe_use}
+{probe_def}dot(w_dup) = -k_loc * w_dup + {s1} * 0.1{probe_use}
+    k_loc = 1.5 + 0.1 * {s1}
 
 [gate]
 use memb.{s1} as {s1}
@@ -113,7 +114,8 @@ dot({s2}) = {nested_a} * (1 - {s2}) - {nested_b} * {s2}
     {nested_b} = {mmt_expr(e_b)}
 dot({s3}) = {nested_a} - {s3} * if({s1} < -1, 2, 3)
     {nested_a} = {mmt_expr(e_a3)}
-dot(w_dup) = -2 * w_dup + {s3}
+dot(w_dup) = -k_loc * w_dup + {s3}
+    k_loc = 2 + 0.25 * {s3}
 """
     return text
 
@@ -329,7 +331,7 @@ def main(argv=None):
     return rep.finish(
         level="proof",
         rule="the shipped example.mmt and noble_1962.cellml (ToRORd in the thorough tier); generated .mmt models with two components, aliases, "
-             "variables nested under two different states with the same local names, names that clash with sympy names (beta, gamma, E, I, S, N, ...), "
+             "variables nested under two different states with the same local names, same-named states in two components with same-named nested variables, names that clash with sympy names (beta, gamma, E, I, S, N, ...), "
              "if(...), dot(x) read inside expressions and all operators; .ode-text models (whose intermediates may read state derivatives) converted to Myokit; derivatives compared at the initial state and 2 perturbed states",
         trusted_base=["Coq 8.16.1 kernel (the renaming model is partial)", "Myokit's parser, evaluator (evaluate_derivatives), unit system and sympy writer are oracles"],
         assumptions=["relative tolerance 1e-8 between Myokit's evaluation and the generated numpy rhs"],
